@@ -60,10 +60,13 @@ def divLoop (v : α) : Nat → α → α
   | n + 1, acc => divLoop v n (acc / v)
 
 /-- the value computed by `operator^=`:
-`power >= 0`: `i = 1; while (i < power) { _value *= value; ++i; }` (so power 0 and power 1 both
-leave the value unchanged); `power < 0`: `_value = 1.; i = 0; while (i < -power) { _value /= value; ++i; }` -/
+`power == 0`: `_value = 1.`;
+`power > 0`: `i = 1; while (i < power) { _value *= value; ++i; }`;
+`power < 0`: `_value = 1.; i = 0; while (i < -power) { _value /= value; ++i; }` -/
 def powValue (v : α) (p : Int) : α :=
-  if p ≥ 0 then mulLoop v (p.toNat - 1) v else divLoop v (-p).toNat 1.0
+  if p = 0 then 1.0
+  else if p > 0 then mulLoop v (p.toNat - 1) v
+  else divLoop v (-p).toNat 1.0
 
 /-- `operator^=` -/
 def pow (u : Unit α) (p : Int) : Unit α :=
